@@ -185,4 +185,7 @@ def run(tier, seed):
                 'interpolation': 'two slots from a pool of 9 slot expressions; text before / between / after the slots: %d shapes of <= %d symbolic bytes' % (10 if tier == 'quick' else 18, 2 if tier == 'quick' else 3), 'jobs': len(jobs)}
     c.outside = ['\\xHH with HH >= 0x80 (character or byte: not stated)', 'slot expressions containing braces inside nested string literals', 'unterminated literals (C03)', 'longer symbolic text']
     c.run_jobs('strings', jobs, par_jobs=8, par_paths=2)
+    from families import seq
+    mb = [t for t in seq.templates(tier, seed) if t['name'].startswith(('mb-', 'str-'))]
+    c.run_family('byte-indexed-strings', mb, ('exit', 'stdout', 'stderr-empty', 'panic', 'hang'), seq.role)
     return c.finish()
